@@ -46,6 +46,15 @@
 //     does not occur in it and it is not nested in a test of n);  sc_err_returns: its body ends
 //     in `return nil, <non-nil>`;  sc_empty_check: a later `if n == 0 { … return nil, <non-nil> }`.
 //
+//   - flag_table : list flag_row — for every function of pkg/cli and every generic slot of
+//     Command (cmd.BoolVal1/2/3, cmd.IntVal, cmd.StringVal) that it passes DIRECTLY as an
+//     argument to a function of package api: the set of parameter names (taken from the
+//     declarations in <repo>/pkg/api) the slot is bound to.  A slot bound to two different
+//     parameter names inside one function (e.g. BoolVal2 passed as `all` in the stdin branch
+//     and as `json` in the file branch) shows up as fl_nnames = 2.  Calls of api functions that
+//     are not declared in pkg/api, or with more arguments than parameters (without a variadic
+//     tail), make genc41 fail.
+//
 // Every "-" literal must occur as an operand of ==/!=, as an argument of slices.Contains,
 // as an argument of streamInOutForOperation, or as the right-hand side of an assignment;
 // log.SetCLILogger must only be called with nil; anything else makes genc41 FAIL (exit 1),
@@ -983,6 +992,107 @@ func analyseStdinCopy(fns map[string]*fn) stdinShape {
 	return sh
 }
 
+// ---- generic command slots -> api parameter names
+
+type flagRow struct {
+	Func  string `json:"func"`
+	Slot  string `json:"slot"`
+	Names string `json:"names"`
+	N     int    `json:"n"`
+}
+
+func apiParams(repo string) map[string][]string {
+	res := map[string][]string{}
+	for _, f := range parseDir(filepath.Join(repo, "pkg", "api")) {
+		for _, d := range f.Decls {
+			fd, ok := d.(*ast.FuncDecl)
+			if !ok || fd.Recv != nil {
+				continue
+			}
+			var names []string
+			for _, p := range fd.Type.Params.List {
+				_, variadic := p.Type.(*ast.Ellipsis)
+				if len(p.Names) == 0 {
+					names = append(names, "_")
+				}
+				for _, n := range p.Names {
+					nm := n.Name
+					if variadic {
+						nm += "..."
+					}
+					names = append(names, nm)
+				}
+			}
+			res[fd.Name.Name] = names
+		}
+	}
+	return res
+}
+
+func analyseFlags(order []*fn, params map[string][]string) []flagRow {
+	slots := map[string]bool{"BoolVal1": true, "BoolVal2": true, "BoolVal3": true, "IntVal": true, "StringVal": true}
+	var rows []flagRow
+	for _, x := range order {
+		bound := map[string]map[string]bool{}
+		ast.Inspect(x.decl, func(n ast.Node) bool {
+			c, ok := n.(*ast.CallExpr)
+			if !ok {
+				return true
+			}
+			s, ok := c.Fun.(*ast.SelectorExpr)
+			if !ok {
+				return true
+			}
+			pk, ok := s.X.(*ast.Ident)
+			if !ok || pk.Name != "api" {
+				return true
+			}
+			for i, a := range c.Args {
+				se, ok := a.(*ast.SelectorExpr)
+				if !ok || !slots[se.Sel.Name] {
+					continue
+				}
+				if id, ok := se.X.(*ast.Ident); !ok || id.Name != "cmd" {
+					continue
+				}
+				ps, ok := params[s.Sel.Name]
+				if !ok {
+					die("%s: api.%s is not declared in pkg/api", pos(c), s.Sel.Name)
+				}
+				name := ""
+				switch {
+				case i < len(ps):
+					name = ps[i]
+				case len(ps) > 0 && strings.HasSuffix(ps[len(ps)-1], "..."):
+					name = ps[len(ps)-1]
+				default:
+					die("%s: api.%s called with more arguments than parameters", pos(c), s.Sel.Name)
+				}
+				if bound[se.Sel.Name] == nil {
+					bound[se.Sel.Name] = map[string]bool{}
+				}
+				bound[se.Sel.Name][strings.ToLower(strings.TrimSuffix(name, "..."))] = true
+			}
+			return true
+		})
+		for slot, names := range bound {
+			var l []string
+			for n := range names {
+				l = append(l, n)
+			}
+			sort.Strings(l)
+			rows = append(rows, flagRow{Func: x.Name, Slot: slot, Names: strings.Join(l, ","), N: len(l)})
+		}
+	}
+	sort.Slice(rows, func(i, j int) bool {
+		if rows[i].Func != rows[j].Func {
+			return rows[i].Func < rows[j].Func
+		}
+		return rows[i].Slot < rows[j].Slot
+	})
+	return rows
+}
+
 func b(v bool) string {
 	if v {
 		return "true"
@@ -1059,6 +1169,17 @@ func main() {
 	sb.WriteString("Record stdin_copy_shape := mkStdinCopy { sc_err_check_directly_after : bool;\n")
 	sb.WriteString("  sc_err_check_independent_of_n : bool; sc_err_returns : bool; sc_empty_check : bool }.\n\n")
 	fmt.Fprintf(&sb, "Definition stdin_copy : stdin_copy_shape := mkStdinCopy %s %s %s %s.\n", b(sh.DirectlyAfter), b(sh.IndependentOfN), b(sh.ErrReturns), b(sh.EmptyCheck))
+	frows := analyseFlags(order, apiParams(*repo))
+	sb.WriteString("\nRecord flag_row := mkFlag { fl_func : string; fl_slot : string; fl_names : string; fl_nnames : nat }.\n\n")
+	sb.WriteString("Definition flag_table : list flag_row := [\n")
+	for i, r := range frows {
+		sep := ";"
+		if i == len(frows)-1 {
+			sep = ""
+		}
+		fmt.Fprintf(&sb, "  mkFlag %q %q %q %d%s\n", r.Func, r.Slot, r.Names, r.N, sep)
+	}
+	sb.WriteString("].\n")
 	if err := os.MkdirAll(filepath.Dir(*out), 0o755); err != nil {
 		die("%v", err)
 	}
